@@ -9,7 +9,7 @@ import sys
 
 HERE = os.path.dirname(os.path.abspath(__file__))
 sys.path.insert(0, HERE)
-GEN_DIR = os.path.join(os.path.dirname(HERE), "harness", "src", "gen")
+GEN_DIR = os.path.join(os.environ.get("CV_HARNESS", os.path.join(os.path.dirname(HERE), "harness")), "src", "gen")
 
 ERR_MODS = {"pe": "EmptyErr", "pc": "Cheap", "pt": "TagErr", "pb": "BitErr"}
 
@@ -91,7 +91,8 @@ pub fn {sh.name}_body<S: Src>(s: &mut S) {{
     let p = {node.rs};
     const AST: G = {node.ast};
 """
-    aa = "true" if sh.always_accepts else "false"
+    derived = node.all and (sh.node2 is None or sh.node2.all)
+    aa = "true" if (sh.always_accepts or derived) else "false"
     if sh.fam == "refsem":
         body = f"    crate::fam_refsem!(\"{prop_label}\", p, AST, x, t, [{perms}], {aa});\n"
     elif sh.fam == "contract":
@@ -108,7 +109,7 @@ pub fn {sh.name}_body<S: Src>(s: &mut S) {{
     elif sh.fam == "far":
         body = f"    crate::fam_far!(\"{prop_label}\", p, AST, x, t);\n"
     elif sh.fam == "pair":
-        body = f"    let _ = &AST;\n    let q = {sh.node2.rs};\n    crate::fam_pair!(\"{prop_label}\", p, q, x);\n"
+        body = f"    let _ = &AST;\n    let q = {sh.node2.rs};\n    crate::fam_pair!(\"{prop_label}\", p, q, x, {aa});\n"
     elif sh.fam == "check_mode":
         body = f"    let _ = &AST; let _ = &t;\n    crate::fam_check_mode!(\"{prop_label}\", p, x);\n"
     else:
